@@ -176,6 +176,47 @@ def size_limit_runs(ctx):
     return fails, n
 
 
+def walk_error_runs(ctx):
+    """A directory the walk itself cannot enter (its path is longer than PATH_MAX, so opening it fails with ENAMETOOLONG):
+    counted as an error, and every other file of the tree - before and after it in directory order - is still processed."""
+    import samples as smp
+    import struct
+    fails, n = [], 0
+    for jobs in ([], ["-j2"]):
+        t = fh.Tree()
+        cwd = os.getcwd()
+        try:
+            t.mkdir("d")
+            names = ["f%02d.gz" % i for i in range(24)]
+            for nm in names[:12]:
+                t.add_file("d/" + nm, fc.gz(1700000000))
+            os.chdir(t.path("d"))
+            os.mkdir("m-long")
+            os.chdir("m-long")
+            for i in range(20):                     # 20 x 251 bytes: more than PATH_MAX
+                os.mkdir("x" * 250)
+                os.chdir("x" * 250)
+            os.chdir(cwd)
+            for nm in names[12:]:
+                t.add_file("d/" + nm, fc.gz(1700000000))
+            t.add_file("e/other.gz", fc.gz(1700000000))
+            rc, out = fh.run_cli(jobs + [t.path("d"), t.path("e")], epoch=smp.EPOCH, timeout=120)
+            n += 1
+            label = "%s tree of 24 .gz files around a directory chain longer than PATH_MAX" % (" ".join(jobs) or "serial")
+            s = fh.parse_summary(out)
+            left = [nm for nm in names if struct.unpack("<I", open(t.path("d/" + nm), "rb").read()[4:8])[0] != smp.EPOCH]
+            if rc == 124 or s is None:
+                fails.append(("walk-error-no-summary", "%s: no summary (exit %s)" % (label, rc), label))
+            elif left or struct.unpack("<I", open(t.path("e/other.gz"), "rb").read()[4:8])[0] != smp.EPOCH:
+                fails.append(("walk-error-stops-walk", "%s: %d of 24 files (%s ...) were not processed after the walk hit the directory it cannot open (summary %s)" % (label, len(left), ", ".join(left[:3]), s), label))
+            elif rc == 0 or s["errors"] == 0:
+                fails.append(("walk-error-unreported", "%s: the directory that could not be read is not reported (exit %d, %s)" % (label, rc, s), label))
+        finally:
+            os.chdir(cwd)
+            t.remove()
+    return fails, n
+
+
 def worker_death(ctx, known):
     """A worker dies: the controller must terminate and report failure."""
     fails = []
@@ -230,8 +271,10 @@ def run(ctx):
                not mism, "; ".join("%s: %s" % (sc.label(), why) for sc, why in mism[:4]))
     wfails, wres = worker_death(ctx, known)
     sfails, sn = size_limit_runs(ctx)
-    wfails = list(wfails) + sfails
+    efails, en = walk_error_runs(ctx)
+    wfails = list(wfails) + sfails + efails
     ctx.coverage["size_limited_runs"] = sn
+    ctx.coverage["walk_error_runs"] = en
     seen = set()
     for sc, kind, msg, inj in fails:
         if kind in seen:
@@ -257,7 +300,8 @@ def run(ctx):
                 "file-system operation kind (open, exclusive create, write, lchown, fchmod, futimens, rename, unlink) a fresh run with that syscall failing "
                 "(strace inject; all of ENOSPC/EIO/EACCES/EPERM for lchown and rename and in the thorough tier, a rotating subset otherwise); class and final state compared with the "
                 "model run with the same fault; oracle: file old-or-final, temp removed unless unlink failed, failure counted and exit non-zero, refused chown tolerated; "
-                "plus parallel runs whose workers are all killed at their first rename (must terminate within 60 s and fail); distinct = (scenario, kind, errno, class)",
+                "plus parallel runs whose workers are all killed at their first rename (must terminate within 60 s and fail); plus a tree whose walk meets a directory it cannot open "
+                "(path longer than PATH_MAX), serial and -j2: reported, all other files processed; distinct = (scenario, kind, errno, class)",
         "samples": samples, "worker_death": wres, "traces_validated_against_impl": n, "correspondence_mismatches": len(mism), "oracle_failures": len(fails) + len(wfails),
     })
     ctx.assumptions += ["a fault = one system call returning an error without side effect (strace error injection)",
